@@ -901,30 +901,86 @@ func (a *analysis) masks(fn *core.Fn, isBase func(ast.Expr) bool, name string, d
 		sel, ok := ast.Unparen(e).(*ast.SelectorExpr)
 		return ok && sel.Sel.Name == name && isBase(sel.X)
 	}
-	// the pointer-slice idiom, as unconditional top-level statements
-	for _, st := range fn.Decl.Body.List {
-		rs, isRange := st.(*ast.RangeStmt)
-		if !isRange || rs.Value == nil || len(rs.Body.List) == 0 {
-			continue
-		}
-		lit, isLit := ast.Unparen(rs.X).(*ast.CompositeLit)
-		if !isLit {
-			continue
-		}
-		listed := false
-		for _, el := range lit.Elts {
-			if u, isAddr := ast.Unparen(el).(*ast.UnaryExpr); isAddr && u.Op == token.AND && isField(u.X) {
-				listed = true
+	// the pointer-table idiom, as unconditional top-level statements: a literal
+	// table of field addresses (ranged over directly or held in a local assigned
+	// once) whose every element is overwritten with a constant in a loop
+	tableOf := func(x ast.Expr) *ast.CompositeLit {
+		x = ast.Unparen(x)
+		if id, ok := x.(*ast.Ident); ok {
+			if d := pat.DefOf(info, id); d != nil {
+				x = ast.Unparen(d)
 			}
 		}
-		if !listed {
-			continue
+		lit, _ := x.(*ast.CompositeLit)
+		return lit
+	}
+	lists := func(lit *ast.CompositeLit) bool {
+		for _, el := range lit.Elts {
+			if kv, ok := el.(*ast.KeyValueExpr); ok {
+				el = kv.Value
+			}
+			if u, isAddr := ast.Unparen(el).(*ast.UnaryExpr); isAddr && u.Op == token.AND && isField(u.X) {
+				return true
+			}
 		}
-		if as, isAs := rs.Body.List[0].(*ast.AssignStmt); isAs && len(as.Lhs) == 1 && len(as.Rhs) == 1 {
-			if star, isStar := ast.Unparen(as.Lhs[0]).(*ast.StarExpr); isStar && pat.Same(info, star.X, rs.Value) {
-				if _, isConst := core.StringConst(info, as.Rhs[0]); isConst {
-					return true, nil, false
+		return false
+	}
+	constStore := func(st ast.Stmt, elem func(ast.Expr) bool) bool {
+		as, isAs := st.(*ast.AssignStmt)
+		if !isAs || len(as.Lhs) != 1 || len(as.Rhs) != 1 {
+			return false
+		}
+		star, isStar := ast.Unparen(as.Lhs[0]).(*ast.StarExpr)
+		if !isStar || !elem(star.X) {
+			return false
+		}
+		_, isConst := core.StringConst(info, as.Rhs[0])
+		return isConst
+	}
+	for _, st := range fn.Decl.Body.List {
+		switch loop := st.(type) {
+		case *ast.RangeStmt:
+			lit := tableOf(loop.X)
+			if lit == nil || !lists(lit) || len(loop.Body.List) == 0 {
+				continue
+			}
+			elem := func(x ast.Expr) bool {
+				x = ast.Unparen(x)
+				if loop.Value != nil && pat.Same(info, x, loop.Value) {
+					return true
 				}
+				if ix, ok := x.(*ast.IndexExpr); ok && loop.Key != nil {
+					return pat.Same(info, ix.X, loop.X) && pat.Same(info, ix.Index, loop.Key)
+				}
+				return false
+			}
+			if constStore(loop.Body.List[0], elem) {
+				return true, nil, false
+			}
+		case *ast.ForStmt:
+			// for i := 0; i < len(T); i++ { *T[i] = const }
+			cond, ok := ast.Unparen(loop.Cond).(*ast.BinaryExpr)
+			if !ok || cond.Op != token.LSS || len(loop.Body.List) == 0 {
+				continue
+			}
+			b := pat.Expr("len(_t)").Match(info, cond.Y, nil)
+			init, isInit := loop.Init.(*ast.AssignStmt)
+			if b == nil || !isInit || len(init.Rhs) != 1 {
+				continue
+			}
+			if v, isC := core.IntConst(info, init.Rhs[0]); !isC || v != 0 {
+				continue
+			}
+			lit := tableOf(b["_t"].(ast.Expr))
+			if lit == nil || !lists(lit) {
+				continue
+			}
+			elem := func(x ast.Expr) bool {
+				ix, ok := ast.Unparen(x).(*ast.IndexExpr)
+				return ok && pat.Same(info, ix.X, b["_t"]) && pat.Same(info, ix.Index, cond.X)
+			}
+			if constStore(loop.Body.List[0], elem) {
+				return true, nil, false
 			}
 		}
 	}
